@@ -202,7 +202,24 @@ def _screen_invalid(base, local, remote, merged, decisions, exc):
     return None
 
 
-SCREENS = {"raises": _screen_raises, "invalid": _screen_invalid}
+def _screen_render(base, local, remote, merged, decisions, exc):
+    """C16: the decisions of the merge, rendered for the terminal (what nbmerge --decisions / --log-level DEBUG print)"""
+    if exc is not None or decisions is None:
+        return None
+    import io
+    from nbdime.prettyprint import PrettyPrintConfig, pretty_print_merge_decisions
+    out = io.StringIO()
+    try:
+        pretty_print_merge_decisions(base, decisions, PrettyPrintConfig(out=out, use_color=False, use_git=False, use_diff=False))
+    except Exception as e:  # noqa
+        t, w = common.exc_info(e)
+        return "render-raised:%s:%s" % (t, w)
+    if "\x1b[" in out.getvalue() and "\x1b[" not in repr((base, local, remote)).replace("\\x1b", "\x1b"):
+        return "render-ansi"
+    return None
+
+
+SCREENS = {"raises": _screen_raises, "invalid": _screen_invalid, "render": _screen_render}
 
 
 def _relabel(decisions, side, only_conflicts=False):
